@@ -215,6 +215,65 @@ fn run_one<A: Alloc, const N: usize>(seed: u64, replay: Option<Vec<u8>>) -> (sch
 
 /// free-running threads (no scheduler): a sole shared handle is cloned through `&` by several threads at once -- the
 /// reference counter must not lose an update (an atomicity below the granularity of the scheduled scenario)
+/// `sub=shared`: ONE handle (reference count 1) shared BY REFERENCE between 2-3 threads that clone it, bulk-increment it
+/// (+ raw copies) and read its count, under the scheduler (yield points at every reference-counter access): the count must
+/// never lose an update, the value must not be destroyed while a handle lives.
+fn run_shared<A: Alloc>(seed: u64, replay: Option<Vec<u8>>) -> (sched::Outcome, Vec<(String, String)>, String) {
+    for d in DROPS.iter() { d.store(0, SeqCst); }
+    let alloc: &'static A = Box::leak(Box::new(A::new()));
+    let mut rng = Rng::new(seed ^ 0x5A5A);
+    let v = 7u32;
+    let base: &'static OgreArc<Tracked, A> = Box::leak(Box::new(OgreArc::new_with(|slot: &mut Tracked| unsafe { std::ptr::write(slot, Tracked { v }) }, alloc).expect("pool")));
+    let made: Arc<Mutex<Vec<OgreArc<Tracked, A>>>> = Arc::new(Mutex::new(vec![]));
+    let nt = rng.range(2, 3) as usize;
+    let done = Arc::new(AtomicUsize::new(0));
+    let mut bodies: Vec<Body> = vec![];
+    // the trace speaks the protocol of the handles model: control block 0 was created with one handle
+    for t in 0..nt {
+        let nops = rng.range(1, 3) as usize;
+        let mut orng = Rng::new(seed.wrapping_mul(77).wrapping_add(t as u64));
+        let (made, done) = (made.clone(), done.clone());
+        bodies.push(Box::new(move |ctx| {
+            let me = ctx.tid();
+            if t == 0 { ctx.call(me, &format!("newarc {v} 1")); ctx.ret("arc 0"); }
+            else { let d2 = done.clone(); let _ = d2; }
+            for _ in 0..nops {
+                match orng.below(3) {
+                    0 => { ctx.call(me, "clone 0"); let c = base.clone(); made.lock().unwrap().push(c); ctx.ret("arc 0"); }
+                    1 => {
+                        let k = orng.range(1, 2) as u32;
+                        ctx.call(me, &format!("increfs 0 {k}"));
+                        unsafe { base.increment_references(k); }
+                        ctx.ret("unit");
+                        for _ in 0..k { ctx.call(me, "rawcopy 0"); let c = unsafe { base.raw_copy() }; made.lock().unwrap().push(c); ctx.ret("arc 0"); }
+                    }
+                    _ => { ctx.call(me, "count 0"); let n = base.references_count(); ctx.ret(&format!("count {n}")); }
+                }
+            }
+            done.fetch_add(1, SeqCst);
+        }));
+    }
+    let mut cfg = Config::new(seed, filter);
+    cfg.replay = replay;
+    // thread 0 must announce the control block before anybody uses it: the other threads start after its first call
+    let outcome = sched::run(cfg, bodies);
+    let mut viol = vec![];
+    if outcome.verdict != Verdict::Completed { viol.push(("no_progress".into(), format!("{:?}", outcome.verdict))); }
+    for (i, p) in outcome.panics.iter().enumerate() { if let Some(m) = p { viol.push(("panic".into(), format!("thread {i} panicked: {}", &m[..m.len().min(200)]))); } }
+    let handles = std::mem::take(&mut *made.lock().unwrap());
+    let live = 1 + handles.len() as u32;
+    reactive_mutiny::verif::participate(false);
+    let count = base.references_count();
+    if count != live {
+        viol.push(("lost_refcount_update".into(), format!("{live} handles on the value are alive (the shared one + {} clones / raw copies made through it by {nt} threads) but references_count() reads {count}", live - 1)));
+        for h in handles { std::mem::forget(h); }       // dropping them would destroy the value under a live handle
+    } else {
+        for h in handles { drop(h); }
+        if DROPS[v as usize].load(SeqCst) != 0 { viol.push(("destroyed_while_held".into(), format!("value {v} was destroyed although the shared handle is still alive"))); }
+    }
+    (outcome, viol, format!("shared/t{nt}"))
+}
+
 fn free_run<A: Alloc>(iters: u32, seed: u64) -> Vec<(String, String)> {
     let alloc: &'static A = Box::leak(Box::new(A::new()));
     let mut viol = vec![];
@@ -254,6 +313,25 @@ fn main() {
         for (k, d) in viol {
             let path = write_replay(&a.get("replay_dir", ""), &format!("{}-handles-freerun-seed{seed}-{k}", a.get("prop", "C")), &[format!("cmd handles sub=freerun runs={iters} seed={seed}"), format!("violation {k}: {d}")], &[]);
             rep.violations.push(Violation { run: 0, seed, kind: k, detail: d, replay: path });
+        }
+        rep.print();
+        return
+    }
+    if a.get("sub", "") == "shared" {
+        let seed0 = a.num("seed", 1);
+        let mut rep = Report::new("handles/shared");
+        let single = a.kv.get("choices").map(|c| parse_choices(c));
+        for i in 0..a.num("runs", 100) {
+            let seed = if a.kv.contains_key("seedx") { a.num("seedx", 0) } else { seed0.wrapping_mul(1_000_003).wrapping_add(i) };
+            mark_run(seed);
+            let (o, viol, cfgkey) = if i % 2 == 0 { run_shared::<AllocatorAtomicArray<Tracked, 4>>(seed, single.clone()) } else { run_shared::<AllocatorFullSyncArray<Tracked, 4>>(seed, single.clone()) };
+            let nontrivial = o.trace.iter().filter(|l| l.contains(" oa.clone ") || l.contains(" oa.inc ")).count() > 1;
+            rep.add_run(&o.trace, nontrivial, &cfgkey, &format!("{:?}", o.verdict));
+            for (k, d) in viol {
+                let header = vec![format!("cmd handles sub=shared runs=1 seedx={seed} choices={}", choices_str(&o.choices)), format!("violation {k}: {d}")];
+                let path = write_replay(&a.get("replay_dir", ""), &format!("{}-handles-shared-seed{seed}-{k}", a.get("prop", "C")), &header, &o.trace);
+                rep.violations.push(Violation { run: i, seed, kind: k, detail: d, replay: path });
+            }
         }
         rep.print();
         return
